@@ -19,11 +19,45 @@ SNAPTOL = 1e-6           # in lattice units (1/den): wrong answers are >= 1 unit
 
 # --------------------------------------------------------------------------- plain numpy side
 def np_dense(tensors, out):
-    """value of a list of (inds, array) over the output labels `out` with numpy.einsum"""
-    labels = sorted({i for inds, _ in tensors for i in inds} | set(out))
-    sym = {x: LETTERS[k] for k, x in enumerate(labels)}
-    eq = ",".join("".join(sym[i] for i in inds) for inds, _ in tensors) + "->" + "".join(sym[i] for i in out)
-    return np.einsum(eq, *[np.asarray(a).astype(complex) for _, a in tensors], optimize="greedy")
+    """value of a list of (inds, array) over the output labels `out`, with plain numpy: pairwise
+    numpy.tensordot in a greedy order (numpy.einsum when a label sits on more than two axes)"""
+    out = list(out)
+    ts = [(list(inds), np.asarray(a).astype(complex)) for inds, a in tensors]
+    count = {}
+    for inds, _ in ts:
+        for i in inds:
+            count[i] = count.get(i, 0) + 1
+    simple = all(c <= 2 for c in count.values()) and all(len(set(inds)) == len(inds) for inds, _ in ts) \
+        and all(count.get(o, 0) == 1 for o in out) and all(c == 2 or i in out for i, c in count.items())
+    if not simple:
+        labels = sorted(set(count) | set(out))
+        sym = {x: LETTERS[k] for k, x in enumerate(labels)}
+        eq = ",".join("".join(sym[i] for i in inds) for inds, _ in ts) + "->" + "".join(sym[i] for i in out)
+        return np.einsum(eq, *[a for _, a in ts], optimize="greedy")
+    while len(ts) > 1:
+        best = None
+        for x in range(len(ts)):
+            for y in range(x + 1, len(ts)):
+                sh = [i for i in ts[x][0] if i in ts[y][0]]
+                if not sh and best is not None:
+                    continue
+                size = 1
+                for i, d in zip(ts[x][0], ts[x][1].shape):
+                    if i not in sh:
+                        size *= d
+                for i, d in zip(ts[y][0], ts[y][1].shape):
+                    if i not in sh:
+                        size *= d
+                key = (0 if sh else 1, size)
+                if best is None or key < best[0]:
+                    best = (key, x, y, sh)
+        _, x, y, sh = best
+        (ia, a), (ib, b) = ts[x], ts[y]
+        c = np.tensordot(a, b, axes=([ia.index(i) for i in sh], [ib.index(i) for i in sh]))
+        ic = [i for i in ia if i not in sh] + [i for i in ib if i not in sh]
+        ts = [t for k, t in enumerate(ts) if k not in (x, y)] + [(ic, c)]
+    inds, a = ts[0]
+    return np.transpose(a, [inds.index(o) for o in out]) if out else a
 
 
 def tn_tensors(tn):
